@@ -182,6 +182,8 @@ structure Datastore where
   tgt : Slot TargetsDoc := .absent
   /-- `latest_known_time.json` (a file that does not parse is ignored, like an absent one) -/
   time : Option Int := none
+  /-- `root.json`: the root the client ended step 1 with in its previous update on this datastore -/
+  root : Slot Root := .absent
   deriving DecidableEq, Repr
 
 inductive Ev where
@@ -296,22 +298,35 @@ def clearOnline (st : St) : St :=
   { st with ds := { st.ds with ts := .absent, snap := .absent },
             log := .dsRemove "snapshot" :: .dsRemove "timestamp" :: st.log }
 
+/-- the root that the stored timestamp and snapshot were trusted under: the one recorded in the
+datastore, or the shipped root while nothing is recorded (or the record does not parse) -/
+def refRoot (ds : Datastore) (r0 : Root) : Root :=
+  match ds.root with
+  | .doc p => p
+  | _ => r0
+
+/-- step 1.9's comparison (`KeysIter` sequences of the timestamp and of the snapshot role) -/
+def onlineKeysChanged (a b : Root) : Bool :=
+  a.keysIter .timestamp != b.keysIter .timestamp || a.keysIter .snapshot != b.keysIter .snapshot
+
+def recordRoot (root : Root) (st : St) : St :=
+  { st with ds := { st.ds with root := .doc root }, log := .dsCreate "root" :: st.log }
+
 def loadRoot (cfg : Config) (srv : Server) (shipped : Option Root) (st : St) : Except Err Root × St :=
   match shipped with
   | none => (.error .parseShipped, st)
   | some r0 =>
     if !rootVerify r0 .root r0.msg r0.sigs then (.error .verifyShipped, st)
     else
+      let reference := refRoot st.ds r0
       match rootLoop cfg srv r0.version (cfg.limits.maxRootUpdates + 1) r0 st with
       | (.error e, st) => (.error e, st)
       | (.ok root, st) =>
         match expiryGate cfg .root root.expires st with
         | (.error e, st) => (.error e, st)
         | (.ok (), st) =>
-          if r0.keysIter .timestamp != root.keysIter .timestamp
-              || r0.keysIter .snapshot != root.keysIter .snapshot then
-            (.ok root, clearOnline st)
-          else (.ok root, st)
+          if onlineKeysChanged reference root then (.ok root, recordRoot root (clearOnline st))
+          else (.ok root, recordRoot root st)
 
 /-- the version prefix of a file name under consistent snapshots -/
 def versioned (consistent : Bool) (v : Nat) : Option Nat := if consistent then some v else none
@@ -481,6 +496,13 @@ end
 /-- `Targets::validate` -/
 def Tgt.validate (t : Tgt) : Bool := t.names.all fun n => (t.find n).isSome
 
+/-- `if let Some(delegations) = &mut targets.signed.delegations { load_delegations(..) }` -/
+def loadChildren (cfg : Config) (srv : Server) (snap : Snapshot) (consistent : Bool) (doc : TargetsDoc) (st : St) :
+    Except Err (Roles × List Nat) × St :=
+  match doc.deleg with
+  | none => (.ok (.nil, []), st)
+  | some d => loadDelegs cfg srv snap consistent (snap.metas.length + 1) d [] st
+
 def loadTargets (cfg : Config) (srv : Server) (root : Root) (snap : Snapshot) (st : St) :
     Except Err Tgt × St :=
   match snap.find .targets with
@@ -501,11 +523,7 @@ def loadTargets (cfg : Config) (srv : Server) (root : Root) (snap : Snapshot) (s
           | (.error e, st) => (.error e, st)
           | (.ok (), st) =>
             let st := { st with ds := { st.ds with tgt := .doc doc }, log := .dsCreate "targets" :: st.log }
-            let sub : Except Err (Roles × List Nat) × St :=
-              match doc.deleg with
-              | none => (.ok (.nil, []), st)
-              | some d => loadDelegs cfg srv snap root.consistent (snap.metas.length + 1) d [] st
-            match sub with
+            match loadChildren cfg srv snap root.consistent doc st with
             | (.error e, st) => (.error e, st)
             | (.ok (children, _), st) =>
               let t := Tgt.mk doc children
